@@ -8,7 +8,7 @@ V=/verif
 export GOFLAGS=-mod=mod GOPROXY=off GOSUMDB=off GOTOOLCHAIN=local
 S=$(mktemp -d /tmp/seedver.XXXXXX); trap 'rm -rf "$S"' EXIT INT TERM
 mkdir "$S/repo"; (cd /repo && git archive HEAD) | tar -x -C "$S/repo"
-place=$(grep -m1 -o 'place in: *[^ ]*' "$DEMO" | sed 's/place in: *//'); [ -z "$place" ] && place="."
+place=$(grep -m1 -oE '(place in|dir): *[^ ]*' "$DEMO" | sed -E 's/(place in|dir): *//'); [ -z "$place" ] && place="."
 case "$place" in "repository"|"repo"|"root"|"the") place=".";; esac
 dst="$S/repo/$place/zz_seed_demo_test.go"
 cp "$DEMO" "$dst"
